@@ -212,8 +212,11 @@ func genOutbox(r *Rng, prop string, k int, tier string) *RunSpec {
 	case 1:
 		o.Social, o.Federating = false, true
 	}
-	if r.Intn(3) == 0 {
+	switch r.Intn(6) {
+	case 0, 1:
 		o.Transport = "queued"
+	case 2:
+		o.Transport = "httpsig" // the real HttpSigTransport over the simulated network
 	}
 	st := newStd(o)
 	g := &obGen{r: r, st: st}
@@ -995,7 +998,7 @@ func init() {
 	register(&PropDef{
 		ID: "C05", Level: "exploration", Engine: "fedsim",
 		Rule: "case = history of 1-3 (thorough: 1-8) posts, one after another, to one or two outboxes of a server (bare objects, Creates with 1-3 embedded objects and overlapping recipient/attribution sets, nine other activity types; client POST or Send; Social / Federating / both); every third case is additionally swept with every single seam-call fault. Oracles: wrap + normalisation model (set semantics) against the values given to Database.Create, per-request ordering NewID < object Create < activity Create < SetOutbox(front, once) < first Transport call, Location = id, outbox history, and 'nothing delivered after a failed persistence step'.",
-		QuickCases: 240, QuickBudgetS: 60, ThoroughBudgetS: 600,
+		QuickCases: 150, QuickBudgetS: 60, ThoroughBudgetS: 600,
 		Drive: func(c *DriveCtx, r *Rng, k int) {
 			if k%3 == 0 {
 				seed := r.s
